@@ -209,11 +209,15 @@ Definition dec (n : N) : str := dec_go 40 n [].
 
 Definition nl : str := [x0a].
 
+(* one diagnostic line (without its line feed) *)
+Definition diag_line (d : rdiag) : str :=
+  [x09; x20] ++ rd_code d ++ s " at " ++ rd_file d ++ s ":" ++ dec (rd_line d + 1)%N
+  ++ s ":" ++ dec (rd_col d + 1)%N ++ s " - " ++ rd_msg d.
+
 (* formatSeverityClass *)
 Definition severity_class (title : str) (l : list rdiag) : str :=
   title ++ s ": (Total " ++ dec (N.of_nat (List.length l)) ++ s ")" ++ nl
-  ++ flat_map (fun d => [x09; x20] ++ rd_code d ++ s " at " ++ rd_file d ++ s ":" ++ dec (rd_line d + 1)%N
-                        ++ s ":" ++ dec (rd_col d + 1)%N ++ s " - " ++ rd_msg d ++ nl) l.
+  ++ flat_map (fun d => diag_line d ++ nl) l.
 
 (* ClassifiedEntityDiags.String *)
 Definition classified_string (e : entity) : str :=
@@ -311,6 +315,15 @@ Definition diag_lines (text : str) : list str :=
   filter (fun l => has_prefix [x09; x20] l) (split_on x0a text).
 Definition prop_C18_text (text : str) : bool := nodup_by str_eqb (diag_lines text).
 
+(* the same, knowing the diagnostics that exist: two DIFFERENT diagnostics may print the same line
+   (two receivers of one file that both return nothing get the same message at the same zero
+   range); a line is a repetition when it occurs more often than there are diagnostics that print it *)
+Definition count_str (x : str) (l : list str) : nat := List.length (filter (str_eqb x) l).
+Definition prop_C18_text_tree (tree : list entity) (text : str) : bool :=
+  let lines := diag_lines text in
+  let have := map diag_line (flat_map all_diags tree) in
+  forallb (fun l => Nat.leb (count_str l lines) (count_str l have)) lines.
+
 (* ---------------------------------------------------------------- examples *)
 
 Definition mk_rd (code msg : string) (sev : esev) (line col : N) : rdiag :=
@@ -341,5 +354,13 @@ Definition demo_tree_tame : list entity :=
       Ent (s "Receiver") (s "B")
         [mk_rd "linker-path-annotation-invalid-reference" "@Query 'zz' does not match any parameter of B" EError 18 10;
          mk_rd "annotation-duplicate" "Multiple instances of '@Route' annotations are not allowed" EWarning 17 0] []]].
+
+(* two receivers of one file that return nothing: two different diagnostics, one text *)
+Definition demo_tree_two_voids : list entity :=
+  [Ent (s "Controller") (s "Ctl") []
+     [Ent (s "Receiver") (s "V1")
+        [mk_rd "receiver-return-values-invalid-signature" "Expected method to return an error or a value and error tuple but found void" EError 0 0] [];
+      Ent (s "Receiver") (s "V2")
+        [mk_rd "receiver-return-values-invalid-signature" "Expected method to return an error or a value and error tuple but found void" EError 0 0] []]].
 
 Definition demo_cpos : cpos := {| c_line := 12; c_col := 10; c_text := s "// @Method(FETCH) see" |}.
